@@ -678,8 +678,16 @@ func TestC20InFlight(t *testing.T) {
 		defer func() { _ = cache.Configure(cdi.WithAutoRefresh(false)) }()
 		undecidedIfNoInotify(t, cache)
 		rounds := rapid.IntRange(1, 3).Draw(t, "rounds")
+		heldRounds := 0
 		for r := 0; r < rounds; r++ {
 			burst := rapid.IntRange(1, 4).Draw(t, fmt.Sprintf("burst%d", r))
+			// harness-owned schedule (drawn): the cache's exported mutex is held while the events are produced, so the
+			// watcher goroutine has taken the first event off its channel and waits for the mutex; Configure is
+			// started in that state and the two are released together
+			held := rapid.Bool().Draw(t, fmt.Sprintf("held%d", r))
+			if held {
+				cache.Lock()
+			}
 			for b := 0; b < burst; b++ {
 				// one event in the first directory
 				tmp := filepath.Join(big, ".tmp")
@@ -687,7 +695,17 @@ func TestC20InFlight(t *testing.T) {
 				_ = os.Rename(tmp, filepath.Join(big, "f0000.json"))
 				time.Sleep(time.Duration(rapid.IntRange(0, 3000).Draw(t, fmt.Sprintf("gap%d_%d", r, b))) * time.Microsecond)
 			}
-			if err := cache.Configure(cdi.WithAutoRefresh(false)); err != nil {
+			if held {
+				time.Sleep(2 * time.Millisecond)
+				cfgDone := make(chan error, 1)
+				go func() { cfgDone <- cache.Configure(cdi.WithAutoRefresh(false)) }()
+				time.Sleep(time.Duration(rapid.IntRange(0, 2000).Draw(t, fmt.Sprintf("release%d", r))) * time.Microsecond)
+				cache.Unlock()
+				if err := <-cfgDone; err != nil {
+					t.Fatalf("VERIF-HARNESS Configure: %v", err)
+				}
+				heldRounds++
+			} else if err := cache.Configure(cdi.WithAutoRefresh(false)); err != nil {
 				t.Fatalf("VERIF-HARNESS Configure: %v", err)
 			}
 			x := filepath.Join(small, "x.json")
@@ -709,6 +727,10 @@ func TestC20InFlight(t *testing.T) {
 			undecidedIfNoInotify(t, cache)
 		}
 		c := map[string]any{"files": nFiles, "rounds": rounds}
-		rec.Case(true, canonJSON(c)+fmt.Sprint(rec), func() any { return c }, "auto-switched-off-with-events-in-flight")
+		labels := []string{"auto-switched-off-with-events-in-flight"}
+		if heldRounds > 0 {
+			labels = append(labels, "watcher-held-at-the-mutex-when-Configure-starts")
+		}
+		rec.Case(true, canonJSON(c)+fmt.Sprint(rec), func() any { return c }, labels...)
 	})
 }
